@@ -7,7 +7,7 @@ from vlib.core import write_cfg, validate_trace, count_lines, NCPU, CheckerError
 LEVEL = "model_checking"
 META = {
     "technique": "TLA+ spec Arpa.tla (encoders, Canon, DecodeAddr as pure operators over label/character sequences) model-checked by TLC over bounded address and name sets; every enumerated address and name replayed on IPToReversedAddr / IPFromReversedAddr with the spec-predicted result; seeded random addresses and edited names recorded from the Go code and trace-validated by TLC",
-    "level_text": "TLC checks on every enumerated address (IPv4 over a byte alphabet^4, the same as IPv4-mapped and nearly-mapped 16-byte forms, every IPv6 byte position and adjacent pair over two background fills) that DecodeAddr(Encode(a)) = a in lower/upper/mixed case with zero or one trailing dot and is rejected with two, and on every enumerated name (all label sequences up to 4-5 labels over a table of octet / leading-zero / overflow / nibble / junk labels and long nibble runs of 28..34 labels, before 16 suffix shapes per family incl. xin-addr.arpa, wrong TLD, Unicode look-alikes) that whatever decodes re-encodes to its folded, dot-stripped self. TLC emits each address and name with the predicted result; the Go harness replays all of them on the real functions (value, rejection, *AddrError type, no panic). The name family also replaces each of the last labels (suffix labels and the labels next to them) by its ACE alias xn--<label>- and contains a real IDN label with its ACE form, and control-byte look-alikes of '-', '.', '6' in the suffix. Single-byte substitution: for six canonical names (full, partial and root name of each family) every position x every byte value 0..255 is run on the real code, judged in Go by the statement's relations and, every one of them, by TLC's DecodeAddr on the logged observation. No hidden state: ArpaState.tla proves 'every call returns Encode of the bytes its argument held' for a stateless and a copying-memo design and refutes it for a memo aliasing the caller's buffer and for an unsynchronised memo; the harness replays those histories: ~7.6k IPToReversedAddr calls that reuse one backing array (in-place increments of every byte of 4-byte, 16-byte and mapped buffers, both families alternating in one buffer, whole and 4-byte tail), argument checked unchanged, name decoded back and judged by TLC against the current bytes, all names retained and re-verified at the end; then goroutines that own distinct address vectors of both families encode / decode them in runs (memo hits and misses alternate) and compare every result with the specification's prediction, at full speed and under -race (ArpaState.tla also refutes two separately published atomics). Names in which in-addr / ip6 / arpa occur as ordinary labels (twice, in the middle, wrong order; a complete name followed by further labels and a second suffix, also across families) are part of the enumerated language. 10^5-10^6 seeded random addresses and random edits of their names (incl. ACE wrapping of a label) are run against the round-trip identity in Go and a sample of the log is re-judged by TLC with the same operators.",
+    "level_text": "TLC checks on every enumerated address (IPv4 over a byte alphabet^4, the same as IPv4-mapped and nearly-mapped 16-byte forms, every IPv6 byte position and adjacent pair over two background fills) that DecodeAddr(Encode(a)) = a in lower/upper/mixed case with zero or one trailing dot and is rejected with two, and on every enumerated name (all label sequences up to 4-5 labels over a table of octet / leading-zero / overflow / nibble / junk labels and long nibble runs of 28..34 labels, before 16 suffix shapes per family incl. xin-addr.arpa, wrong TLD, Unicode look-alikes) that whatever decodes re-encodes to its folded, dot-stripped self. TLC emits each address and name with the predicted result; the Go harness replays all of them on the real functions (value, rejection, *AddrError type, no panic). The name family also replaces each of the last labels (suffix labels and the labels next to them) by its ACE alias xn--<label>- and contains a real IDN label with its ACE form, and control-byte look-alikes of '-', '.', '6' in the suffix. Single-byte substitution: for six canonical names (full, partial and root name of each family) every position x every byte value 0..255 is run on the real code, judged in Go by the statement's relations and, every one of them, by TLC's DecodeAddr on the logged observation. No hidden state: ArpaState.tla proves 'every call returns Encode of the bytes its argument held' for a stateless and a copying-memo design and refutes it for a memo aliasing the caller's buffer and for an unsynchronised memo; the harness replays those histories: ~7.6k IPToReversedAddr calls that reuse one backing array (in-place increments of every byte of 4-byte, 16-byte and mapped buffers, both families alternating in one buffer, whole and 4-byte tail), argument checked unchanged, name decoded back and judged by TLC against the current bytes, all names retained and re-verified at the end; then goroutines that own distinct address vectors of both families encode / decode them in runs (memo hits and misses alternate) and compare every result with the specification's prediction, at full speed and under -race (ArpaState.tla also refutes two separately published atomics). Cold start: 48 (quick) / 400 fresh processes plus 3 / 12 under -race in which 8 goroutines released by one barrier make the FIRST ARPA calls of the process on sampled vectors (long nibble names valid and with one corrupted label, other names, addresses), every result compared with the prediction. Names in which in-addr / ip6 / arpa occur as ordinary labels (twice, in the middle, wrong order; a complete name followed by further labels and a second suffix, also across families) are part of the enumerated language. 10^5-10^6 seeded random addresses and random edits of their names (incl. ACE wrapping of a label) are run against the round-trip identity in Go and a sample of the log is re-judged by TLC with the same operators.",
     "level_note": "Bounded: the exhaustive part covers label sequences up to the stated length over the label table, not all strings; longer/other inputs are sampled (random edits). A nibble name of an IPv4-mapped address is accepted as the IPv6 (Is4In6) address it spells, which the statement leaves open. Domain-name validity is taken from netutil.ValidateDomainName.",
 }
 
@@ -95,7 +95,7 @@ def check_refutations(jobs, results):
     return refuted
 
 
-def concurrent_phase(ctx, prop, args_plain, args_race, fatal_key, what):
+def concurrent_phase(ctx, prop, args_plain, args_race, fatal_key):
     """Result-checked concurrent phase, run twice: plain (real parallel speed) and under -race."""
     out = {}
     for tag, args, race in (("plain", args_plain, False), ("race", args_race, True)):
@@ -106,6 +106,42 @@ def concurrent_phase(ctx, prop, args_plain, args_race, fatal_key, what):
             ctx.evaluations += s4["stress_calls"]
             out[tag] = {k: s4.get(k) for k in ("goroutines", "stress_units", "stress_calls")}
     ctx.extra["concurrent_phase"] = out
+
+
+def cold_phase(ctx, prop, files, q, fatal_key):
+    """Cold start: FRESH processes in which nothing of golibs is called before N goroutines,
+    released by one barrier, make the first ARPA calls of the process on their own sampled
+    vectors; every result is compared with the specification's prediction.  Many plain runs (a
+    wrong result needs the calls to overlap) and a few under -race (an unsynchronised first use
+    is reported even without an overlap)."""
+    from concurrent.futures import ThreadPoolExecutor
+    files = [f for f in files if f.exists() and f.stat().st_size > 0]
+    if not files:
+        raise CheckerError("no cold-start sample was written")
+    nplain, nrace, ng = (48, 3, 8) if q else (400, 12, 8)
+    ctx.build_vh(False)
+    ctx.build_vh(True)
+
+    def one(k):
+        race = k >= nplain
+        out = ctx.scratch / ("cold%d.res" % k)
+        p = ctx.vh([prop, "coldstart", out, k, ng] + files, race=race, timeout=600, fatal_key=fatal_key)
+        return out if (out.exists() and p.returncode == 0) else None
+
+    with ThreadPoolExecutor(max_workers=4) as ex:
+        outs = list(ex.map(one, range(nplain + nrace)))
+    calls = 0
+    for out in outs:
+        if out is not None:
+            calls += ctx.collect(out)["cold_calls"]
+            out.unlink()
+    ctx.evaluations += calls
+    ctx.extra["cold_start_phase"] = {"fresh_processes": nplain, "fresh_processes_under_race": nrace,
+                                     "goroutines": ng, "first_calls": calls}
+
+
+def report_races(ctx, what):
+    """Race detector reports of all -race runs of this check (once, at the end)."""
     golibs, other = ctx.race_reports()
     if other and not golibs:
         raise CheckerError("race detector reported a race in the harness only:\n" + other[0][:3000])
@@ -176,6 +212,10 @@ def run(ctx):
                        [("none", "{1, 2}", True), ("copy", "{1, 2}", True), ("alias", "{1}", False),
                         ("unsync", "{1, 2}", False), ("split", "{1, 2}", False)],
                        {"MaxCalls": 2 if q else 3, "LastBytes": "{1, 2}" if q else "{1, 2, 3}"}, q)
+    # cold start (ArpaLazyState.tla): a first-use flag raised before the lazily built table is complete
+    sjobs += state_jobs(ctx, d, "ArpaLazyState",
+                        [("static", "{1, 2}", True), ("flaglast", "{1, 2}", True), ("flagfirst", "{1, 2}", False)],
+                        {"MaxCalls": 2}, q)
     results = par(ctx, jobs + vjobs + sjobs)
     ctx.extra["memo_designs_refuted_by_tlc"] = check_refutations(jobs + vjobs + sjobs, results)
     _mark(ctx, "tlc-mc-gen")
@@ -186,7 +226,8 @@ def run(ctx):
     distinct = s1["distinct_nontrivial"]
     nvec = s1["vectors"]
     for i, sd in enumerate(dirs):
-        ctx.vh(["c04", "replay-names", sd / "name_vectors.ndjson", ctx.scratch / ("names%d.res" % i)])
+        ctx.vh(["c04", "replay-names", sd / "name_vectors.ndjson", ctx.scratch / ("names%d.res" % i),
+                ctx.scratch / ("cold_names%d.ndjson" % i)])
         s = ctx.collect(ctx.scratch / ("names%d.res" % i))
         calls += s["calls"]
         distinct += s["distinct_nontrivial"]
@@ -219,9 +260,15 @@ def run(ctx):
     #    the specification's prediction; once at full speed, once under the race detector.
     av = ctx.scratch / "stress_units.ndjson"
     concurrent_phase(ctx, "c04", (8, 60000, av) if q else (16, 400000, av), (8, 4000, av) if q else (12, 40000, av),
-                     "concurrent IPToReversedAddr / IPFromReversedAddr",
-                     "goroutines encoded and decoded their own addresses")
+                     "concurrent IPToReversedAddr / IPFromReversedAddr")
     _mark(ctx, "concurrent")
+
+    # 5. S: cold start - the first ARPA calls of fresh processes overlap (lazily built tables,
+    #    first-use flags: hidden state whose window exists once per process).
+    cold_phase(ctx, "c04", [ctx.scratch / "cold_names0.ndjson", ctx.scratch / "cold_names1.ndjson", av], q,
+               "cold start of IPFromReversedAddr / IPToReversedAddr")
+    report_races(ctx, "goroutines encoded and decoded their own addresses (warm and cold start)")
+    _mark(ctx, "cold-start")
 
 
 def replay(ctx, path):
